@@ -348,6 +348,7 @@ class Ctx(object):
         self.suppressed = 0
         self.live = True                 # False while a family issues calls with nrhs = 0
         self.case_live = not any(case.get(k) == 0 for k in ('n', 'm'))
+        self.states = self.transitions = 0      # call-history family only
 
     def count(self, label, nontrivial=True):
         self.n += 1
@@ -431,7 +432,8 @@ class Ctx(object):
 
     def result(self):
         return {'n': self.n, 'nontrivial': self.nontrivial, 'viol': self.viol, 'maxerr': self.maxerr,
-                'outcomes': self.outcomes, 'extra': {'suppressed_violation_entries': self.suppressed}}
+                'outcomes': self.outcomes, 'extra': {'suppressed_violation_entries': self.suppressed},
+                'states': self.states, 'transitions': self.transitions, 'traces': self.transitions}
 
 
 def lays1(tier):
@@ -2528,6 +2530,204 @@ def cases_meta(tier, seed):
 
 
 CASEGENS.append(cases_meta)
+
+
+# ================================================================================= call histories (explicit-state, depth 2)
+# A wrapper must not carry anything over from one call to the next (a cached workspace size, a static scratch buffer, a
+# remembered flag).  For every wrapper: configurations = order (3, 4) x optional output matrices given / omitted x every
+# value of every flag keyword; histories [b], [a, b], [r, b], [r, a, b] for ALL ordered pairs (a, b) of configurations
+# (r = a call of the same wrapper with another order, which displaces anything keyed on the order).  The reference
+# observation of [b] and [r, b] is made in a child forked from a server process that has imported cvxopt.lapack and called
+# nothing (the initial state); the pair histories then run one after the other in the server itself, so b is observed
+# immediately after every a, behind an ever longer prefix: outcome (return value / exception) and the contents of every
+# argument after the call must equal the observation made from the initial state.
+
+HFLAGS = {'jobz': ['N', 'V'], 'uplo': ['L', 'U'], 'trans': ['N', 'T', 'C'], 'range': ['A', 'V', 'I'],
+          'jobu': ['N', 'A', 'S', 'O'], 'jobvt': ['N', 'A', 'S', 'O'], 'side': ['L', 'R'], 'diag': ['N', 'U'],
+          'itype': [1, 2, 3]}
+HFLAGS_FN = {('gesdd', 'jobz'): ['N', 'A', 'S', 'O'], ('lacpy', 'uplo'): ['N', 'L', 'U']}
+HOPTMAT = ('ipiv', 'w', 'a', 'b', 'V', 'Vl', 'Vr', 'U', 'Vt', 'Z')
+
+
+def _hist_configs(name):
+    import itertools
+    from cvxopt import lapack
+    from checks import C19
+    sg = C19._lapack_sig(getattr(lapack, name))
+    if sg is None:
+        return None, []
+    pos, kws = sg
+    flags = [(k, HFLAGS_FN.get((name, k), HFLAGS[k])) for k, d in kws if k in HFLAGS]
+    optm = [k for k, d in kws if k in HOPTMAT]
+    cfgs = []
+    for n in (3, 4):
+        for om in ((False, True) if optm else (False,)):
+            for vals in itertools.product(*[dom for _, dom in flags]):
+                cfgs.append({'n': n, 'opt': om, 'flags': dict(zip([k for k, _ in flags], vals))})
+    return (pos, optm), cfgs
+
+
+def _hist_args(name, sig, cfg):
+    from cvxopt import matrix
+    pos, optm = sig
+    n = cfg['n']
+    tc = 'z' if name[:2] in ('he', 'un') else 'd'
+    def sq():
+        return matrix([(4.0 + i // (n + 1)) if i % (n + 1) == 0 else (0.5 if (i // n + i % n) % 2 else -0.25)
+                       for i in range(n * n)], (n, n), tc)
+    args = []
+    for nm in pos:
+        if nm in ('ipiv', 'jpvt'):
+            args.append(matrix(list(range(1, n + 1)), (n, 1), 'i'))
+        elif nm in ('tau', 'dl', 'du', 'du2', 'd', 'e', 'x', 'v'):
+            args.append(matrix([2.0 + i for i in range(n)], (n, 1), 'd' if nm in ('d',) else tc))
+        elif nm in ('W', 'S'):
+            args.append(matrix(0.0, (n, 1), 'd'))
+        elif nm in ('kl', 'ku', 'kd', 'k'):
+            args.append(1)
+        elif nm == 'm':
+            args.append(n)
+        elif nm == 'alpha':
+            args.append(matrix([1.5], (1, 1), tc))
+        else:
+            args.append(sq())
+    kw = dict(cfg['flags'])
+    if cfg['opt']:
+        for k in optm:
+            if k == 'ipiv':
+                kw[k] = matrix(0, (n, 1), 'i')
+            elif k in ('w', 'a'):
+                kw[k] = matrix(0.0, (n, 1), 'z')
+            elif k == 'b':
+                kw[k] = matrix(0.0, (n, 1), 'd')
+            else:
+                kw[k] = matrix(0.0, (n, n), tc)
+    return args, kw
+
+
+def _hist_call(name, sig, cfg):
+    """one call; observation = outcome + contents of every matrix argument afterwards"""
+    from cvxopt import lapack
+    args, kw = _hist_args(name, sig, cfg)
+    try:
+        r = getattr(lapack, name)(*args, **kw)
+        out = ['ok', repr(r)]
+    except Exception as e:
+        out = ['exc', type(e).__name__, str(e)[:60]]
+    vals = []
+    for a in list(args) + [kw[k] for k in sorted(kw)]:
+        if hasattr(a, 'typecode'):
+            for v in a:
+                vals.extend([v.real, v.imag] if isinstance(v, complex) else [float(v)])
+    return out, vals
+
+
+def _hist_same(o1, o2):
+    if o1[0] != o2[0] or len(o1[1]) != len(o2[1]):
+        return False
+    for x, y in zip(o1[1], o2[1]):
+        if x != x and y != y:
+            continue
+        if not (abs(x - y) <= 1e-9 * (1.0 + abs(x))):
+            return False
+    return True
+
+
+def _hist_server(name):
+    """runs in a fresh interpreter (nothing called yet); prints a JSON summary"""
+    import json, os, pickle, sys
+    sig, cfgs = _hist_configs(name)
+    res = {'configs': len(cfgs), 'histories': 0, 'states': 0, 'diffs': [], 'outcomes': {}}
+    if not cfgs:
+        print(json.dumps(res)); return
+
+    def forked(hist):
+        r, w = os.pipe()
+        pid = os.fork()
+        if pid == 0:
+            code = 0
+            try:
+                os.close(r)
+                o = None
+                for cf in hist:
+                    o = _hist_call(name, sig, cf)
+                os.write(w, pickle.dumps(o))
+            except BaseException:
+                code = 3
+            finally:
+                os._exit(code)
+        os.close(w)
+        data = b''
+        while True:
+            ch = os.read(r, 65536)
+            if not ch:
+                break
+            data += ch
+        os.close(r)
+        _, st = os.waitpid(pid, 0)
+        res['histories'] += 1
+        if st != 0 or not data:
+            return (['died', 'status %d' % st], [])
+        return pickle.loads(data)
+
+    seen = set()
+    alone = {}
+    for pre in (False, True):
+        for bi, b in enumerate(cfgs):
+            reset = [dict(cfgs[0], n=7 - b['n'])] if pre else []
+            alone[(pre, bi)] = o = forked(reset + [b])          # from the initial state (nothing called before)
+            res['outcomes'][o[0][0]] = res['outcomes'].get(o[0][0], 0) + 1
+            seen.add(repr(o))
+    # every ordered pair (a, b), b immediately after a, in this (no longer pristine) process: whatever preceded, the
+    # observation of b must be the one made from the initial state
+    for pre in (False, True):
+        for bi, b in enumerate(cfgs):
+            reset = [dict(cfgs[0], n=7 - b['n'])] if pre else []
+            for a in cfgs:
+                after = None
+                for cf in reset + [a, b]:
+                    after = _hist_call(name, sig, cf)
+                res['histories'] += 1
+                seen.add(repr(after))
+                if not _hist_same(alone[(pre, bi)], after) and len(res['diffs']) < 6:
+                    o = alone[(pre, bi)]
+                    res['diffs'].append({'reset': reset, 'a': a, 'b': b, 'alone': o[0], 'after': after[0],
+                                         'alone_vals': o[1][:12], 'after_vals': after[1][:12]})
+    res['states'] = len(seen)
+    print(json.dumps(res))
+
+
+@family('hist')
+def fam_hist(case, c):
+    import subprocess, sys, json
+    name = case['fn']
+    p = subprocess.run([sys.executable, '-c', 'from checks import C18; C18._hist_server(%r)' % name],
+                       stdout=subprocess.PIPE, stderr=subprocess.PIPE, cwd=os.path.dirname(os.path.dirname(os.path.abspath(__file__))))
+    try:
+        res = json.loads(p.stdout.decode().strip().splitlines()[-1])
+    except Exception:
+        c.bad('hist:%s:server-failed' % name, 'history server for lapack.%s produced no result (rc=%s): %s'
+              % (name, p.returncode, p.stderr.decode()[-600:]))
+        return
+    c.n += res['histories']
+    c.nontrivial += res['histories'] - 2 * res['configs']
+    c.states += res['states']
+    c.transitions += res['histories']
+    for k, v in res['outcomes'].items():
+        c.outcomes['hist-last-call-' + k] = c.outcomes.get('hist-last-call-' + k, 0) + v
+    for d in res['diffs']:
+        c.bad('hist:%s:result-depends-on-previous-call' % name,
+              'lapack.%s: the call %r gives %r (values %r) from the initial state but %r (values %r) after the call %r%s'
+              % (name, d['b'], d['alone'], d['alone_vals'], d['after'], d['after_vals'], d['a'],
+                 ' (both behind a call with another order)' if d['reset'] else ''), {'history': d})
+
+
+def cases_hist(tier, seed):
+    for name in COVERED:
+        yield {'f': 'hist', 'fn': name, 'seed': seed}
+
+
+CASEGENS.append(cases_hist)
 
 
 
